@@ -319,7 +319,46 @@ fn shift_amounts(r: &mut Rng, w: u32, thorough: bool) -> Vec<u32> {
     v
 }
 
+/// a handful of operands for the 2080- and 8192-bit types
+fn giant_inputs(prop: &str, seed: u64, w: u32, thorough: bool) -> Inputs {
+    let n = (w / 8) as usize;
+    let mut r = Rng::new(seed ^ ((w as u64) << 32) ^ 0x61a47);
+    let mut i = Inputs::default();
+    let k = if thorough { 10 } else { 2 };
+    match prop {
+        "C05" => {
+            let amts: Vec<u32> = vec![0, 1, 7, 8, 9, 63, 64, 65, w / 2, w - 65, w - 64, w - 63, w - 33, w - 32, w - 9, w - 8, w - 1, w, w + 1, 2048, 2047, 2049, u32::MAX];
+            for a in amts {
+                i.shifts.push((gen::small(n, 3), a));
+                i.shifts.push((gen::random(&mut r, n), a));
+                for _ in 0..k {
+                    let sl = 1 + r.below(n as u64) as usize;
+                    let sv = gen::fit(&gen::short(&mut r, sl), n);
+                    let sa = r.below(w as u64) as u32;
+                    i.shifts.push((sv, sa));
+                }
+            }
+        }
+        "C06" => {
+            i.vals = vec![gen::ones(n), gen::smin(n), gen::small(n, 1), gen::random(&mut r, n), gen::pow2(n, (w / 2 + 3) as usize)];
+            i.pairs = vec![(gen::random(&mut r, n), gen::random(&mut r, n))];
+            i.bits = vec![(gen::random(&mut r, n), w - 1), (gen::zero(n), w / 2 + 1), (gen::ones(n), 2055.min(w - 1))];
+        }
+        "C07" => {
+            let a = gen::random(&mut r, n);
+            let mut b = a.clone();
+            b[n / 2] ^= 1;
+            i.triples = vec![(a.clone(), b, gen::zero(n)), (gen::ones(n), gen::smin(n), gen::smax(n)), (a.clone(), a, gen::small(n, 1))];
+        }
+        _ => {}
+    }
+    i
+}
+
 fn inputs(prop: &str, seed: u64, w: u32, thorough: bool) -> Inputs {
+    if w > 1024 {
+        return giant_inputs(prop, seed, w, thorough);
+    }
     let n = (w / 8) as usize;
     let mut r = Rng::new(seed ^ ((w as u64) << 32) ^ (prop.as_bytes()[2] as u64 * 131 + prop.as_bytes()[1] as u64));
     let mut i = Inputs::default();
@@ -526,6 +565,7 @@ fn main() {
         for_prims!(run_prim);
     } else {
         for_matrix!(run_bnum);
+        for_giants!(run_bnum);
     }
     let ctx = CTX.with(|c| c.borrow_mut().take().unwrap());
     let (n, splits) = ctx.sink.finish();
